@@ -109,7 +109,7 @@ fn recovery() -> Vec<HOp> {
 }
 
 fn units(_tier: &str) -> usize {
-    grid().len() + dup_cases().len() + NG.len() + dir_cases().len() + 6 + NG.len() + 3
+    grid().len() + dup_cases().len() + NG.len() + dir_cases().len() + 6 + 2 * (NG.len() + 3)
 }
 
 // ---------------------------------------------------------------- a rename that really fails
@@ -255,7 +255,7 @@ fn run_long_name(naming: NamingK, mode: ModeK) -> Result<usize, Fail> {
 /// is closed by a rotation cannot be written. W x 6, shutdown: that loss is reported, the
 /// records logged after the rotation (the next file is a regular one) are all there, and no
 /// empty file is closed.
-fn run_cur_full_buffered(naming: Option<NamingK>, closer: usize) -> Result<usize, Fail> {
+fn run_cur_full_buffered(naming: Option<NamingK>, closer: usize, mode: ModeK) -> Result<usize, Fail> {
     let env = Env::new("c19b");
     env.enter();
     // (without rotation: two records, both are still in the buffer at shutdown)
@@ -263,7 +263,7 @@ fn run_cur_full_buffered(naming: Option<NamingK>, closer: usize) -> Result<usize
         Some(n) => Cfg::rot(CritK::Size(LIMIT), n, CleanK::Never),
         None => Cfg::norot(),
     };
-    cfg.mode = ModeK::BufDont(64);
+    cfg.mode = mode;
     let planted: std::sync::Arc<std::sync::Mutex<Option<std::path::PathBuf>>> = std::sync::Arc::new(std::sync::Mutex::new(None));
     {
         let planted = std::sync::Arc::clone(&planted);
@@ -289,7 +289,8 @@ fn run_cur_full_buffered(naming: Option<NamingK>, closer: usize) -> Result<usize
     let lines = h.accepted.clone();
     // without rotation, the file is closed by shutdown(), by reopen_output() or by reset_flw()
     let how = ["shutdown()", "reopen_output()", "reset_flw()"][closer.min(2)];
-    if naming.is_none() && closer > 0 {
+    // (asynchronous mode: only shutdown() - the other two would race with the writer thread)
+    if naming.is_none() && closer > 0 && !mode.is_async() {
         let by_result = usize::from(h.apply(if closer == 1 { HOp::Reopen } else { HOp::ResetSame }).is_err());
         let reported = env.errlines().len() + by_result;
         if reported == 0 {
@@ -338,6 +339,23 @@ fn run_cur_full_buffered(naming: Option<NamingK>, closer: usize) -> Result<usize
             detail: format!("records {missing:?} were accepted into the buffer of a file on a full device and are in no file, but nothing was written to the error channel"),
         });
     }
+    if mode.is_async() {
+        // the asynchronous writer thread writes unbuffered: every record fails on its own (and
+        // is reported on its own), the size criterion sees an empty file and does not rotate
+        return if reported < missing.len() {
+            Err(Fail {
+                clause: "not-reported",
+                detail: format!("{} records are in no file ({missing:?}) but only {reported} line(s) were written to the error channel", missing.len()),
+            })
+        } else if !empty_regular.is_empty() {
+            Err(Fail {
+                clause: "closed-early",
+                detail: format!("empty files {empty_regular:?} next to the file on the full device"),
+            })
+        } else {
+            Ok(reported)
+        };
+    }
     if missing.len() > 1 {
         return Err(Fail {
             clause: "unrelated-record-lost",
@@ -355,20 +373,23 @@ fn run_cur_full_buffered(naming: Option<NamingK>, closer: usize) -> Result<usize
 
 fn run_rename_dir_unit(idx: usize, unit: usize, out: &mut Out) {
     if idx >= 6 {
+        let per_mode = NG.len() + 3;
+        let mode = [ModeK::BufDont(64), ModeK::Async(1, 64, 0)][(idx - 6) / per_mode];
+        let idx = 6 + (idx - 6) % per_mode;
         let naming = NG.get(idx - 6).copied();
         let closer = (idx - 6).saturating_sub(NG.len());
-        let case = json!({"unit": unit, "rename_dir": idx});
-        let cause = format!("current-file-on-full-device/buffered/{}", naming.map_or(["no-rotation", "no-rotation/reopen", "no-rotation/reset"][closer.min(2)], |n| n.short()));
+        let case = json!({"unit": unit, "rename_dir": idx + if mode.is_async() { per_mode } else { 0 }});
+        let cause = format!("current-file-on-full-device/{}/{}", if mode.is_async() { "async" } else { "buffered" }, naming.map_or(["no-rotation", "no-rotation/reopen", "no-rotation/reset"][closer.min(2)], |n| n.short()));
         let mut vs = Vec::new();
         for _ in 0..2 {
             out.evaluations += 1;
             out.transitions += 7;
-            match run_isolated(Duration::from_secs(30), move || run_cur_full_buffered(naming, closer)) {
+            match run_isolated(Duration::from_secs(30), move || run_cur_full_buffered(naming, closer, mode)) {
                 Ran::Done(Ok(n)) => {
                     out.outcome(format!("current file full (buffered): error lines={}", n.min(9)));
                     break;
                 }
-                Ran::Done(Err(f)) => vs.push(Violation::new(f.clause, cause.clone(), format!("naming {naming:?}, BufferDontFlush(64), size limit {LIMIT}, six records of 20 bytes, shutdown; the first file the logger opens is a symlink to /dev/full\n  {}", f.detail), case.clone())),
+                Ran::Done(Err(f)) => vs.push(Violation::new(f.clause, cause.clone(), format!("naming {naming:?}, {mode:?}, size limit {LIMIT}, six records of 20 bytes, shutdown; the first file the logger opens is a symlink to /dev/full\n  {}", f.detail), case.clone())),
                 Ran::Panicked(m) => vs.push(Violation::new("panic", cause.clone(), m, case.clone())),
                 Ran::Hung => vs.push(Violation::new("hang", cause.clone(), String::new(), case.clone())),
             }
